@@ -17,7 +17,8 @@ KEYS = {"NOTONCE": "a suspended task did not continue exactly once", "TWICE": "a
 def pdesc(c):
     return "seed %d, task_arena(%d), %d suspending tasks, resume from %s%s" % (c[0], c[1], c[2], ["callback/foreign thread/task (mixed)", "the suspend callback", "a foreign thread", "another task", "a foreign thread 1-40 ms later (the suspending thread has gone to sleep)", "a foreign thread while another task of the arena waits for the suspended task's group",
                                                                                    "a foreign thread while another task waits for the suspended task's group inside this_task_arena::isolate",
-                                                                                   "the main thread; the suspensions are at the OUTERMOST level of external threads that keep busy with a spawned task, 1-2 more external threads block in task_group::wait"][c[3]], ", nested suspensions" if c[4] else "")
+                                                                                   "the main thread; the suspensions are at the OUTERMOST level of external threads that keep busy with a spawned task, 1-2 more external threads block in task_group::wait",
+                                                                                   "the thread that then waits for the group - after the task's group was CANCELLED while the task was suspended"][c[3]], ", nested suspensions" if c[4] else "")
 
 
 def oracle(c, toks):
@@ -117,6 +118,11 @@ def run(ctx):
     ctx.rules.append("suspend-outermost: 1-3 external threads suspend at the outermost level inside arena(K+W[+2], K+W) (no workers / two worker slots) and keep busy with a spawned task; 1-2 external threads block in "
                      "task_group::wait; the main thread resumes the points in seeded order while the owners are busy: every point continues exactly once on its own thread within 6 s (the owner must be recalled)")
     oracle_tie(ctx, "suspend-outermost", exe, [], ocases, oracle, describe=pdesc, bucket=lambda c: "suspend-outermost K=%d extra=%d" % (c[1], c[4]), timeout=900)
+
+    kcases = [[ctx.seed * 1000 + 850000 + i, P, n, 8, 0] for i, (P, n) in enumerate([(2, 6), (8, 4), (4, 6), (3, 6)] * ctx.scale(1, 5))]
+    ctx.rules.append("suspend-cancelled: the group of a suspended task is cancelled while the task is suspended, then resume() and task_group::wait (a thread of the arena may be busy in a blocking task of another "
+                     "group): the suspended code continues exactly once before the wait returns - cancellation skips tasks that have not started, not continuations")
+    oracle_tie(ctx, "suspend-cancelled", exe, [], kcases, oracle, describe=pdesc, bucket=lambda c: "suspend-cancelled P=%d" % c[1], timeout=900)
 
     rng2 = ctx.rng
     tcases = [[ctx.seed * 1000 + 900000 + i, rng2.choice([1, 2, 3, 4, 8]), rng2.choice([1, 2, 4, 8, 20]), rng2.choice([0, 0, 1, 2, 3]), rng2.choice([0, 60, 200])] for i in range(ctx.scale(60, 1500))]
